@@ -107,9 +107,79 @@ def calcNext (p : PowParams) (prevHeight prevBits firstTs prevTs : Nat) : Option
   else if prevHeight + 1 < p.blocksPerRetarget then none
   else some (nextBits p.cfg prevBits (actualSpan firstTs prevTs))
 
+/-! ### `CalcNextRequiredDifficulty` on a real chain of block nodes (the walk is not abstracted) -/
+
+/-- what the functions read of a `BlockNode`. -/
+structure Node where
+  ts : Nat
+  bits : Nat
+  deriving DecidableEq, Repr
+
+inductive WalkOut
+  | ok (bits : Nat)
+  | err      -- "unable to obtain previous retarget block"
+  | panic    -- nil dereference: the chain handed in is shorter than the retarget window
+  deriving DecidableEq, Repr
+
+/-- `chain` lists the ancestors oldest first, its last element is `prevNode` at height `tipHeight`
+    (heights are consecutive).  The `for firstNode.Height != height` walk ends at the node
+    `blocksPerRetarget - 1` steps above the tip, i.e. at index `length - blocksPerRetarget`. -/
+def calcNextChain (p : PowParams) (tipHeight : Nat) (chain : List Node) : WalkOut :=
+  match chain.getLast? with
+  | none => .panic
+  | some tip =>
+    if tipHeight = 0 ∨ p.limitBits = 0x207fffff then .ok p.limitBits
+    else if (tipHeight + 1) % 2 ^ 32 % p.blocksPerRetarget ≠ 0 then .ok tip.bits
+    else if tipHeight + 1 < p.blocksPerRetarget then .err
+    else match chain[chain.length - p.blocksPerRetarget]? with
+      | some first =>
+        if chain.length < p.blocksPerRetarget then .panic
+        else .ok (nextBits p.cfg tip.bits (actualSpan first.ts tip.ts))
+      | none => .panic
+
 /-- `CalcWork` : 2^256 / (target+1), zero for non-positive targets. -/
 def calcWork (bits : Nat) : Int :=
   let t := compactToBig bits
   if t ≤ 0 then 0 else Int.ediv (2 ^ 256) (t + 1)
+
+/-! ### `getNetworkHashPS`, `CalcCurrentDifficulty` -/
+
+/-- the nodes `getNetworkHashPS` looks at: the last 120 when the node 120 below the tip is part of
+    the chain, otherwise all of them (the walk then ends at `nil`; for tips below height 120 the
+    `uint32` subtraction wraps and no node matches). -/
+def hashWindow (tipHeight : Nat) (chain : List Node) : List Node :=
+  if 120 ≤ tipHeight ∧ 120 < chain.length then chain.drop (chain.length - 120) else chain
+
+/-- work done in the window divided by the span of its timestamps; 0 when they are all equal. -/
+def networkHashPS (tipHeight : Nat) (chain : List Node) : Int :=
+  let w := hashWindow tipHeight chain
+  match w with
+  | [] => 0
+  | n0 :: _ =>
+    let mn := w.foldl (fun m n => min m n.ts) n0.ts
+    let mx := w.foldl (fun m n => max m n.ts) n0.ts
+    if mn = mx then 0
+    else Int.ediv (w.foldl (fun acc n => acc + calcWork n.bits) 0) ((mx - mn : Nat) : Int)
+
+/-- `CalcCurrentDifficulty`: limit target / current target (`big.Int.Div`); `none` = division by
+    zero panic. -/
+def currentDifficulty (limitBits bits : Nat) : Option Int :=
+  if compactToBig bits = 0 then none else some (Int.ediv (compactToBig limitBits) (compactToBig bits))
+
+/-! ### a chain of blocks validated by the node (`CheckBlockContext`: the header's bits must be
+exactly the retarget result) -/
+
+/-- deliver blocks one after the other; each step is (seconds after the parent, amount added to the
+    expected bits).  A block is connected iff its bits equal `calcNextChain` on the chain so far.
+    Returns per step the bits carried and whether the node took the block, and the final chain. -/
+def nodeRun (p : PowParams) : List Node → List (Nat × Int) → List (Nat × Bool) → List (Nat × Bool) × List Node
+  | chain, [], acc => (acc.reverse, chain)
+  | chain, (delta, tamper) :: rest, acc =>
+    match chain.getLast?, calcNextChain p (chain.length - 1) chain with
+    | some tip, .ok expected =>
+      let bits := (((expected : Int) + tamper) % 2 ^ 32).toNat
+      if tamper = 0 then nodeRun p (chain ++ [⟨tip.ts + delta, bits⟩]) rest ((bits, true) :: acc)
+      else nodeRun p chain rest ((bits, false) :: acc)
+    | _, _ => (acc.reverse, chain)
 
 end ElaVerif.Compact
